@@ -75,4 +75,28 @@ def dmrgFwdB (cj : α → α) (P : Phi3 α) (A x : Core α) : Arr4 α :=
 def dmrgFwdC (cj : α → α) (P : Phi3 α) (y A x : Core α) : Phi3 α :=
   fun L S R => sumTo y.r0 (fun l => sumTo A.m (fun M => y.get l M 0 L * dmrgFwdB cj P A x l M S R))
 
+/-! ### the inline chains of `dmrg_hadamard_python` (3-index cores `z_k` of the first factor in place of operator cores) -/
+
+/-- `W1 = einsum('ikl,mikn->mkln', conj(z_k), W1)` -/
+def hadW1b (cj : α → α) (PL : Phi3 α) (z1 x1 : Core α) : Arr4 α :=
+  fun y n1 a' x' => sumTo z1.r0 (fun a => cj (z1.get a n1 0 a') * dmrgW1a cj PL x1 y a n1 x')
+/-- `W2 = einsum('ikl,klmn->ikmn', conj(z_{k+1}), W2)` -/
+def hadW2b (cj : α → α) (PR : Phi3 α) (z2 x2 : Core α) : Arr4 α :=
+  fun a' n2 x' Y => sumTo z2.r1 (fun A' => cj (z2.get a' n2 0 A') * dmrgW2a cj PR x2 n2 A' x' Y)
+/-- `W = einsum('ijkl,kmln->ijmn', W1, W2)` -/
+def hadWc (cj : α → α) (PL PR : Phi3 α) (z1 x1 z2 x2 : Core α) : Arr4 α :=
+  fun y m1 m2 Y => sumTo z1.r1 (fun a' => sumTo x1.r1 (fun x' => hadW1b cj PL z1 x1 y m1 a' x' * hadW2b cj PR z2 x2 a' m2 x' Y))
+/-- `Phi = einsum('ikl,mlnk->ikmn', conj(z_k), Phi)` -/
+def hadBckB (cj : α → α) (P : Phi3 α) (z x : Core α) : Arr4 α :=
+  fun s N L r => sumTo z.r1 (fun S => cj (z.get s N 0 S) * dmrgBckA cj P x L S r N)
+/-- `Phi = einsum('ijkl,mjk->mil', Phi, y_k)` -/
+def hadBckC (cj : α → α) (P : Phi3 α) (y z x : Core α) : Phi3 α :=
+  fun l s r => sumTo z.m (fun N => sumTo y.r1 (fun L => hadBckB cj P z x s N L r * y.get l N 0 L))
+/-- `Phi_next = einsum('ijkl,jkn->iknl', Phi_next, conj(z_k))` -/
+def hadFwdB (cj : α → α) (P : Phi3 α) (z x : Core α) : Arr4 α :=
+  fun l N S R => sumTo z.r0 (fun s => dmrgFwdA cj P x l s N R * cj (z.get s N 0 S))
+/-- `Phi_next = einsum('ijm,ijkl->mkl', y_k, Phi_next)` -/
+def hadFwdC (cj : α → α) (P : Phi3 α) (y z x : Core α) : Phi3 α :=
+  fun L S R => sumTo y.r0 (fun l => sumTo z.m (fun N => y.get l N 0 L * hadFwdB cj P z x l N S R))
+
 end TT.Kern
